@@ -3,7 +3,7 @@ import steps_C16
 
 ID = "C16"
 PROP = {
-    "modules": ["Gnmi.Props.C16"],
+    "modules": ["Gnmi.Props.C16", "Gnmi.Props.C16Mgr"],
     "extra": [steps_C16.race_step],
     "theorems": ["Gnmi.C16." + t for t in [
         "inv_init", "inv_step", "inv_reach", "no_panic", "map_wellformed",
@@ -14,9 +14,22 @@ PROP = {
         "closed_le_one", "last_release_closes_and_forgets", "earlier_release_keeps_open", "closed_is_forgotten",
         "next_request_dials_afresh", "all_released_all_closed",
         "done_idempotent", "done_again_noop", "done_after_error_noop",
-        "failed_request_holds_nothing", "failed_object_unregistered"]],
+        "failed_request_holds_nothing", "failed_object_unregistered"]] + ["Gnmi.C16Mgr." + t for t in [
+        # the holder's side: manager/manager.go releases every connection it acquires, exactly once
+        "ginv_init", "ginv_step", "ginv_reach", "acquire_iff", "release_iff", "none_iff",
+        "held_le_one", "held_iff_in_session",
+        "released_when_idle", "released_in_backoff", "released_before_dial_returns", "released_before_error_callbacks",
+        "released_when_finished",
+        "remove_releases", "remove_returns_released", "removed_never_again",
+        "release_once", "exec_ledger",
+        "dial_succeeds_after_cancel", "dial_succeeds_after_cancel_released"]] + [
+        "Gnmi.Manager.Reach.ghost", "Gnmi.Manager.GReach.reach", "Gnmi.Manager.applyMove_sound"],
     "components": [
         {"c": "cn", "quick": {"n": 1500, "exhaustive": True}, "thorough": {"n": 12000, "exhaustive": True, "seeds": 4}},
+        # manager.Manager as the holder: the mg scenarios with the emphasis on the connection side (dial injections,
+        # the real connection.Manager underneath in `runc` lines); one line is a whole scenario
+        {"c": "mg", "label": "mg-conn", "gen_args": ["-profile", "conn"], "min_len": 3,
+         "quick": {"n": 60, "exhaustive": True}, "thorough": {"n": 600, "exhaustive": True, "seeds": 3}},
     ],
     # there is no separate abstract spec: the LTS *is* what the theorems are about; the driver
     # returns the model observation in both columns, so every divergence is a failing input
@@ -28,17 +41,25 @@ PROP = {
         "(sequential op scripts over real goroutines, observed at quiescence) but not proved",
         "Go memory model for mutex-protected sections and channel close/receive happens-before",
         "grpc-go: ClientConn.Close() moves the connection to connectivity.Shutdown synchronously; NewClient does not connect",
+        "the manager LTS Model/ManagerLTS.lean (C13) with the connection ledger Model/ManagerConn.lean as a description of "
+        "manager.go's createConn / monitor (acquire = Connection returned nil error, release = monitor's deferred done); "
+        "validated by the mg correspondence (ledger of every Connection return and done call on the real manager), not proved",
     ],
     "assumptions": [
         "the Dial function returns a non-nil *grpc.ClientConn iff it returns a nil error",
         "callers invoke only the done func they were handed (any number of times, from any goroutine)",
         "a requester blocked on a shared dial does not watch its own context (as coded); only the creator's context reaches Dial",
+        "manager side: a ConnectionManager may return a connection although the context was cancelled meanwhile (modelled: dialOk "
+        "has no context guard); createConn's loop over next hops is one program counter (Pc.dial)",
     ],
     "rule": "cn op sequences (req/reqs/release/cancel/done/dones/state/storm) from the seeded generator plus every sequence of "
             "length 4 over a 12-op alphabet; each op's observation is the whole manager state at quiescence (dial invocations "
             "per address, registered objects with ref, every requester's status and connection, open/shut per connection, "
             "parked dials, model-independent monitors); a sequence is non-trivial when it has >= 3 ops and some observation "
-            "other than ok/err/empty; distinct = by hash of its op lines",
+            "other than ok/err/empty; distinct = by hash of its op lines.  mg-conn: run/runc scenario lines (fault script per "
+            "attempt, Remove/Reconnect injected at script-relative moments incl. while dialling with the dial failing (d) or "
+            "succeeding (s)); per target the callback trace, API returns, acq (compared with the Lean ledger), leak/twice/uad "
+            "(must be 0), and for runc the real connection.Manager's table size and open connections at the end (must be 0)",
     "manifest": {
         "level_text": "Lean 4 theorems about a labelled transition system of connection.Manager whose transitions are the code's atomic "
                       "sections: an inductive invariant (inv_init, inv_step) over all interleavings, any number of requesters/addresses, "
@@ -47,7 +68,12 @@ PROP = {
                       "next_request_dials_afresh, all_released_all_closed), done_idempotent and done_after_error_noop follow; the nil "
                       "dereference in Manager.remove is unreachable (no_panic). Tied to connection/connection.go by the cn correspondence: "
                       "real goroutines, scripted Dial returning real lazily-connecting grpc.ClientConns, observed at quiescence; exhaustive "
-                      "small scope + seeded random scripts + unscripted stress, with model-independent monitors.",
+                      "small scope + seeded random scripts + unscripted stress, with model-independent monitors.  The holder's side "
+                      "(manager/manager.go): theorems C16Mgr.* about the manager LTS with a connection ledger (held_le_one, "
+                      "released_when_idle, remove_releases, release_once, for every fault script and schedule, including a dial that "
+                      "succeeds after its context was cancelled), tied to the code by the mg correspondence, which keeps a ledger of "
+                      "every successful Connection return and every done call of the real manager.Manager, also with the real "
+                      "connection.Manager underneath (ends empty, every connection Shutdown).",
         "level_note": "Proof of the protocol LTS; that the LTS's atomic sections are the code's is validated by the correspondence, not "
                       "proved. Trusted: Lean kernel (axioms propext, Quot.sound, Classical.choice only), Model/ConnLTS.lean, Go runtime "
                       "(mutex, channels), grpc-go Close/GetState.",
